@@ -923,7 +923,8 @@ func (x *fnExec) buildQuery(o *Obl, useQuant bool, exact bool) (smt string, getV
 		if onlyG && usesG != nil && !o.Smoke && f.origin != "" && isContractOrigin(f.origin) && !usesG[f.origin[strings.Index(f.origin, "#")+1:]] {
 			continue
 		}
-		if f.seq < o.seq && (o.Smoke || f.global || x.canPrecede(x.blockAt(f.seq), ob)) {
+		if f.seq < o.seq && (o.Smoke || f.global || x.unroll > 0 || x.canPrecede(x.blockAt(f.seq), ob)) {
+			// (bounded fall-back: loops are unrolled, so what a loop body established does reach the code after the loop)
 			cs = append(cs, &cand{t: f.t, syms: heapSyms(f.t)})
 		} else if f.seq < o.seq && os.Getenv("SCTPVC_DEBUG") != "" && !o.Smoke {
 			fmt.Fprintf(os.Stderr, "PRUNE %s site=%s: fact seq=%d from block %d (obligation block %d): %s\n", o.Name, o.Site, f.seq, x.blockAt(f.seq).Index, ob.Index, f.t.Short())
@@ -935,7 +936,7 @@ func (x *fnExec) buildQuery(o *Obl, useQuant bool, exact bool) (smt string, getV
 		if uses != nil && !o.Smoke && isContractOrigin(q.origin) && !uses[q.origin[strings.Index(q.origin, "#")+1:]] {
 			continue
 		}
-		if q.seq < o.seq && (o.Smoke || q.global || x.canPrecede(x.blockAt(q.seq), ob)) {
+		if q.seq < o.seq && (o.Smoke || q.global || x.unroll > 0 || x.canPrecede(x.blockAt(q.seq), ob)) {
 			cs = append(cs, &cand{t: q.body, syms: heapSyms(Implies(q.pc, q.body)), q: q})
 		}
 	}
